@@ -152,6 +152,19 @@ FALSY = [0, "", [], None, 0.0, False]
 TRUTHY = [1, "x", [0], 2.5, True, (0,)]
 
 
+class Val:
+    """the value of a marker / condition probe: its truth test is an event of the trace, so a truth test the
+    source does not perform (or performs once where the converted program performs it twice) is visible"""
+    __slots__ = ("w", "tag", "t")
+
+    def __init__(self, w, tag, t):
+        self.w, self.tag, self.t = w, tag, t
+
+    def __bool__(self):
+        self.w.ev.append(("bool",) + self.tag)
+        return self.t
+
+
 class World:
     """instrumented probes; all outcomes are a deterministic function of (schedule, probe id, call number)"""
 
@@ -170,18 +183,16 @@ class World:
         self.ev.append(("m", i))
         # the value of a marker call is irrelevant in statement position but matters to the
         # short-circuit style: vary its truthiness
-        h = (self.s * 7 + i * 3 + len(self.ev)) % 4
-        return [None, 0, 1, "v"][h]
+        h = (self.s * 7 + i * 3 + len([e for e in self.ev if e[0] != "bool"])) % 4
+        return Val(self, ("m", i), bool([None, 0, 1, "v"][h]))
 
     def c(self, i):
         k = self._k(("c", i))
         self.ev.append(("c", i, k))
         if k >= self.max_cond_calls:
-            return FALSY[(self.s + i) % len(FALSY)]
+            return Val(self, ("c", i, k), False)
         h = (self.s * 2654435761 + i * 40503 + k * 9973 + (self.s >> 3)) % 7
-        if h < 3:
-            return FALSY[(self.s + i + k) % len(FALSY)]
-        return TRUTHY[(self.s + i + k) % len(TRUTHY)]
+        return Val(self, ("c", i, k), h >= 3)
 
     def r(self, i):
         self.ev.append(("r", i))
@@ -247,6 +258,22 @@ def has_def(block):
 
 def ev_str(e):
     return " ".join(str(x) for x in e)
+
+
+def collapse_retests(ev):
+    """drop a truth-test event of a condition value that immediately repeats the previous event (the same object
+    tested again right away)"""
+    out = []
+    for e in ev:
+        if out and e == out[-1] and e[0] == "bool" and e[1] == "c":
+            continue
+        out.append(e)
+    return out
+
+
+def model_events(ev):
+    """the events the Lean semantics list (truth tests are folded into the condition / marker events there)"""
+    return [ev_str(e) for e in ev if e[0] != "bool"]
 
 
 def res_json(res):
